@@ -108,7 +108,12 @@ impl TypeChecker {
         // We do these  by popping from the queue so as to deallocate immediately and
         // prevent peaks in memory residency
         let mut counter = 0;
+        #[cfg(smlxl_storage_layout_extractor_verif)]
+        crate::verif::loop_enter(crate::verif::Site::Lift);
         while let Some(value) = result_values.pop_front() {
+            #[cfg(smlxl_storage_layout_extractor_verif)]
+            crate::verif::tick(crate::verif::Site::Lift);
+
             // If we have been told to stop, stop and return an error.
             if counter % polling_interval == 0 && self.watchdog.should_stop() {
                 Err(Error::StoppedByWatchdog).locate(value.instruction_pointer())?;
@@ -147,7 +152,12 @@ impl TypeChecker {
         // We do this by popping so as to allow immediate deallocation on scope loss,
         // and prevent peaks in memory residency
         let mut counter = 0;
+        #[cfg(smlxl_storage_layout_extractor_verif)]
+        crate::verif::loop_enter(crate::verif::Site::AssignVars);
         while let Some(value) = values.pop_front() {
+            #[cfg(smlxl_storage_layout_extractor_verif)]
+            crate::verif::tick(crate::verif::Site::AssignVars);
+
             // If we have been told to stop, stop and return an error
             if counter % polling_interval == 0 && self.watchdog.should_stop() {
                 Err(Error::StoppedByWatchdog).locate(value.instruction_pointer())?;
@@ -176,7 +186,13 @@ impl TypeChecker {
 
         let polling_interval = self.watchdog.poll_every();
 
+        #[cfg(smlxl_storage_layout_extractor_verif)]
+        crate::verif::loop_enter(crate::verif::Site::Infer);
+
         for (counter, value) in values.into_iter().enumerate() {
+            #[cfg(smlxl_storage_layout_extractor_verif)]
+            crate::verif::tick(crate::verif::Site::Infer);
+
             // If we have been told to stop, stop and return an error.
             if counter % polling_interval == 0 && self.watchdog.should_stop() {
                 Err(Error::StoppedByWatchdog).locate(value.instruction_pointer())?;
@@ -220,7 +236,13 @@ impl TypeChecker {
 
         let polling_interval = self.watchdog.poll_every();
 
+        #[cfg(smlxl_storage_layout_extractor_verif)]
+        crate::verif::loop_enter(crate::verif::Site::Layout);
+
         for (count, slot) in constant_storage_slots.into_iter().enumerate() {
+            #[cfg(smlxl_storage_layout_extractor_verif)]
+            crate::verif::tick(crate::verif::Site::Layout);
+
             // If we have been told to stop, stop and return an error
             if count % polling_interval == 0 && self.watchdog.should_stop() {
                 Err(Error::StoppedByWatchdog).locate(slot.instruction_pointer())?;
